@@ -387,6 +387,7 @@ class Tracer:
             rec["returned"] = None
             rec["crash"] = e
             rec["crash_tb"] = traceback.format_exc()
+        self.rec.poison_handed_out()
         rec["solver_errors"] = _P.NATURAL_SOLVER_ERRORS[0] - err0
         if rec["solver_errors"]:
             self.mon.count("natural_solver_errors", rec["solver_errors"])
